@@ -30,9 +30,11 @@ def build() -> Check:
         "one obligation per (rule, cell)",
     )
     n_checks = 0
+    restore_failures = []
     for st in [ABSENT, "STARTED", "READY", "PENDING"]:
         traces = pm.run_cell(ci, st, faults=True)
         b1, b2, b3, b4 = [], [], [], []
+        b_restore = []
         for t in traces:
             evs = t.events
             checks = [e for e in user_events(t, "user")]
@@ -47,7 +49,8 @@ def build() -> Check:
                 a0 = (e.data.get("arg_values") or [None])[0]
                 des = [x for x in evs[: evs.index(e)] if x.kind == "DES"]
                 d = dict(t.pc)
-                has_payload = any(k.startswith("truthy(op@") and k.endswith("step_details.result)") and v is True for k, v in t.pc)
+                has_payload = any((k.startswith("truthy(op@") and k.endswith("step_details.result)") and v is True)
+                                  or (k.startswith("op@") and k.endswith("step_details.result is None") and v is False) for k, v in t.pc)
                 if st in ("STARTED", "READY") and has_payload:
                     des_ok = des and des[-1].data.get("outcome") == "ok"
                     if des_ok:
@@ -55,15 +58,17 @@ def build() -> Check:
                             and a0.parts[2].key().endswith("step_details.result") and a0.parts[2].key().startswith("op@")
                         if not good:
                             b1.append((f"poll state is {a0.key() if a0 else None}, not the deserialised recorded payload", t))
-                    elif not (isinstance(a0, Sym) and a0.k == "config.initial_state"):
-                        b1.append((f"poll state after a failed restore is {a0.key() if a0 else None}", t))
+                    else:
+                        # the recorded state could not be restored and the check is polled anyway (with whatever state): the poll's RETRY record
+                        # then replaces the real state - polling silently restarts
+                        b_restore.append((f"the recorded state cannot be restored and the poll runs with {a0.key() if a0 else None} under the current poll number", t))
                 else:
                     if not (isinstance(a0, Sym) and a0.k == "config.initial_state"):
                         b1.append((f"first poll state is {a0.key() if a0 else None}, not the configured initial state", t))
                     elif st in ("STARTED", "READY"):
                         # falling back to the initial state is only right when the path established that nothing was recorded
-                        no_payload = any((k.startswith("truthy(op@") and k.endswith("step_details.result)") and v is False)
-                                         or (k.startswith("op@") and k.endswith("step_details is None") and v is True)
+                        # (a truthiness test does not establish absence: '' is a recorded state of a pass-through / custom serializer)
+                        no_payload = any((k.startswith("op@") and k.endswith("step_details is None") and v is True)
                                          or (k.startswith("op@") and k.endswith("step_details.result is None") and v is True)
                                          for k, v in t.pc)
                         if not no_payload:
@@ -143,9 +148,23 @@ def build() -> Check:
             ck.ob("R4.pending-suspends", construct, not b4, (b4[0][0] + ": " + trace_sig(b4[0][1])) if b4 else "", cell=st)
             continue
         ck.ob("R1.state-threading", construct, not b1, (b1[0][0] + ": " + trace_sig(b1[0][1])) if b1 else "", cell=st)
+        restore_failures.extend(b_restore)
         ck.ob("R2.strategy-arguments", construct, not b2, (b2[0][0] + ": " + trace_sig(b2[0][1])) if b2 else "", cell=st)
         ck.ob("R3.decision-implies-effect", construct, not b3, (b3[0][0] + ": " + trace_sig(b3[0][1])) if b3 else "", cell=st)
     ck.floor("polls_judged", n_checks, 6)
+    ck.ob("R1.state-threading", construct, not restore_failures, (restore_failures[0][0] + ": " + trace_sig(restore_failures[0][1])[:300]) if restore_failures else "",
+          cell="restore-failure")
+    # the state travels to the next poll through the update's payload: a serialised state of '' (pass-through / custom serializer) must be written to the wire,
+    # i.e. the writer's guard for the payload is a presence test, not truthiness
+    from sa.tables import self_root, writer_table
+    upd_td = pm.update_cls.methods.get("to_dict")
+    if upd_td is None:
+        raise AnalysisError("OperationUpdate.to_dict not found")
+    pay = [e for e in writer_table(upd_td) if self_root(e.value) == ("payload",)]
+    kinds = {e.guard_kind("payload") for e in pay}
+    ck.ob("R1.empty-state-survives-the-wire", "lambda_service.py:OperationUpdate.to_dict", bool(pay) and kinds <= {"always", "notnone"},
+          f"the payload is written under guard {sorted(kinds)}: a polled state whose serialised form is '' is dropped from the RETRY / SUCCEED record, the next poll gets the "
+          "initial state and a replayed result is None")
     return ck
 
 
